@@ -418,7 +418,7 @@ const (
 	rlimitRetry  = 200000000 // last attempt for obligations every solver left open (up to maxRetry per function)
 	wallFirst    = 150 * time.Second
 	wallRetry    = 240 * time.Second
-	wallSecond   = 45 * time.Second // second opinions (z3 4.8.12, cvc5): helpful extras, limited by time
+	wallSecond   = 75 * time.Second // second opinions (z3 4.8.12, cvc5): helpful extras, limited by time
 	maxRetry     = 4
 	// Portfolio for what the first attempt leaves open: three more z3 runs that differ only in the random seed. Each is
 	// deterministic (rlimit); together they make the verdict far less sensitive to the one seed of the first attempt.
